@@ -196,6 +196,7 @@ func startChild(gmp int) (*childProc, error) {
 	c.Stdout = io.Discard
 	if os.Getenv("VH_EXEC_DEBUG") != "" {
 		c.Stderr = os.Stderr
+		c.Stdout = os.Stderr
 	} else {
 		c.Stderr = io.Discard
 	}
